@@ -99,6 +99,7 @@ type fnInfo struct {
 	// ... `if rc == nil`): the outcome of one test is remembered along the path
 	// while another test of the same value is still reachable.
 	retested map[ssa.Value]map[*ssa.BasicBlock]bool
+	sticky   map[ssa.Value]bool // parameters the search learnt something about
 }
 
 var (
@@ -352,6 +353,7 @@ func buildInfo(fn *ssa.Function) *fnInfo {
 		}
 	}
 	fi.retested = map[ssa.Value]map[*ssa.BasicBlock]bool{}
+	fi.sticky = map[ssa.Value]bool{}
 	for v, bs := range tests {
 		if len(bs) < 2 {
 			continue
@@ -461,9 +463,75 @@ func purePred(v ssa.Value) (predKey, bool) {
 }
 
 // unwrap strips conversions and nil-preserving wrappers.
+// capturedParam: v loads a variable a closure captured, the variable is the cell
+// of a parameter of the enclosing function, and nothing stores to the cell
+// but the spill of the parameter: every such load is the parameter.
+func capturedParam(v ssa.Value) *ssa.Parameter {
+	ld, ok := v.(*ssa.UnOp)
+	if !ok || ld.Op != token.MUL {
+		return nil
+	}
+	var cell ssa.Value
+	switch x := ld.X.(type) {
+	case *ssa.FreeVar:
+		fn := x.Parent()
+		par := fn.Parent()
+		if par == nil {
+			return nil
+		}
+		idx := -1
+		for i, fv := range fn.FreeVars {
+			if fv == x {
+				idx = i
+			}
+		}
+		for _, b := range par.Blocks {
+			for _, in := range b.Instrs {
+				if mc, ok := in.(*ssa.MakeClosure); ok && mc.Fn == ssa.Value(fn) && idx >= 0 && idx < len(mc.Bindings) {
+					cell = mc.Bindings[idx]
+				}
+			}
+		}
+		// no store through the captured variable inside the closure
+		if x.Referrers() != nil {
+			for _, r := range *x.Referrers() {
+				if _, isStore := r.(*ssa.Store); isStore {
+					return nil
+				}
+			}
+		}
+	case *ssa.Alloc:
+		cell = x
+	}
+	a, ok := cell.(*ssa.Alloc)
+	if !ok || a.Referrers() == nil {
+		return nil
+	}
+	var param *ssa.Parameter
+	for _, r := range *a.Referrers() {
+		switch y := r.(type) {
+		case *ssa.Store:
+			p, isParam := y.Val.(*ssa.Parameter)
+			if y.Addr != ssa.Value(a) || !isParam || param != nil {
+				return nil
+			}
+			param = p
+		case *ssa.UnOp, *ssa.MakeClosure, *ssa.DebugRef:
+		default:
+			return nil
+		}
+	}
+	return param
+}
+
 func unwrap(v ssa.Value) ssa.Value {
 	for {
 		switch x := v.(type) {
+		case *ssa.UnOp:
+			if p := capturedParam(x); p != nil {
+				return p
+			}
+			return v
 		case *ssa.ChangeInterface:
 			v = x.X
 		case *ssa.ChangeType:
@@ -936,7 +1004,7 @@ func (fi *fnInfo) enter(b *ssa.BasicBlock, i int, env *penv) *penv {
 			if in, ok := v.(ssa.Instruction); ok && in.Block() == s {
 				continue // redefined
 			}
-			if fi.retested[v][s] {
+			if fi.retested[v][s] || fi.sticky[v] {
 				ne.val[v] = a
 			}
 		}
@@ -944,6 +1012,21 @@ func (fi *fnInfo) enter(b *ssa.BasicBlock, i int, env *penv) *penv {
 	if ev, val := fi.edgeFact(b, i); ev != nil && val != unk && fi.retested[ev][s] {
 		if in, ok := ev.(ssa.Instruction); !ok || in.Block() != s {
 			ne.val[ev] = val
+		}
+	}
+	// a tested phi that this path bound to one operand: the test is a test of that
+	// operand (`c := a && ctl` entered over the ctl edge, then `if c`: ctl is what was
+	// tested). Kept for parameters, which nothing redefines.
+	if ev, val := fi.edgeFact(b, i); ev != nil && val != unk && env != nil {
+		if p, isPhi := ev.(*ssa.Phi); isPhi {
+			if l, ok := env.leaf[p]; ok {
+				if lp := unwrap(l); lp != nil {
+					if _, isParam := lp.(*ssa.Parameter); isParam {
+						ne.val[lp] = val
+						fi.sticky[lp] = true
+					}
+				}
+			}
 		}
 	}
 	if ps := fi.joins[s]; len(ps) > 0 && cnt == 1 {
@@ -1301,4 +1384,31 @@ func ResolveAt(v ssa.Value, at *ssa.BasicBlock) ssa.Value {
 		v = got
 	}
 	return v
+}
+
+// MustCrossOrKnow is MustCross with one more way to be satisfied: a path that
+// reaches target without crossing a gate is fine if it has learnt that v is
+// zero (want == false) / non-zero (want == true) on the way — `case nf && ctl:`
+// followed by `case nf:` reaches the second arm only with ctl false although
+// no edge tests ctl alone.
+func MustCrossOrKnow(target ssa.Instruction, gates []Edge, v ssa.Value, want bool, posf Posf) (bool, []string) {
+	fn := target.Parent()
+	avoid := map[Edge]bool{}
+	for _, g := range gates {
+		avoid[g] = true
+	}
+	w := zero
+	if want {
+		w = nonzero
+	}
+	bad := false
+	_, parent := reachVisit([]*ssa.BasicBlock{fn.Blocks[0]}, nil, avoid, nil, nil, func(b *ssa.BasicBlock, fi *fnInfo, env *penv) {
+		if b == target.Block() && fi.abs(v, env, b, -1, 0) != w {
+			bad = true
+		}
+	})
+	if !bad {
+		return true, nil
+	}
+	return false, witness(parent, target.Block(), posf)
 }
